@@ -1,5 +1,6 @@
 mod checks;
 mod compile;
+mod dap;
 mod layer_a;
 mod linetab;
 mod ns;
@@ -51,7 +52,7 @@ fn main() {
             let _ = std::fs::create_dir_all(&dir);
             let out = dir.join(format!("r{}_{}.json", pseed, rseed));
             let _ = std::fs::remove_file(&out);
-            let spec = worker::WorkerSpec { property: prop, mode: "layer_a".into(), seed: rseed, run_idx: 0, program: p, bin: b.bin.to_string_lossy().into(), src_file: b.src_file.clone(), tape: None, out: out.to_string_lossy().into(), params: Default::default() };
+            let spec = worker::WorkerSpec { property: prop, mode: args.get(5).cloned().unwrap_or("layer_a".into()), seed: rseed, run_idx: 0, program: p, bin: b.bin.to_string_lossy().into(), src_file: b.src_file.clone(), tape: None, out: out.to_string_lossy().into(), params: Default::default() };
             let sp = dir.join(format!("s{}_{}.json", pseed, rseed));
             std::fs::write(&sp, serde_json::to_string(&spec).unwrap()).unwrap();
             let st = std::process::Command::new(std::env::current_exe().unwrap()).arg("worker").arg(&sp).status().unwrap();
